@@ -206,6 +206,18 @@ def distribution(cases, outs):
             "exceptions": dict(Counter(o["exc"] for o in outs if isinstance(o, dict) and "exc" in o))}
 
 
+# functions of the implementation this property is anchored in: their line coverage under the correspondence cases is
+# measured on the staged copy and reported in the evidence (implementation_line_coverage)
+ANCHORS = [
+    "datascope/importance/utility.py:JointUtility.__init__",
+    "datascope/importance/utility.py:JointUtility.__call__",
+    "datascope/importance/utility.py:JointUtility.null_score",
+    "datascope/importance/utility.py:JointUtility.mean_score",
+    "datascope/importance/utility.py:JointUtility.elementwise_score",
+    "datascope/importance/utility.py:JointUtility.elementwise_null_score",
+    "datascope/importance/shapley.py:compute_shapley_add",
+]
+
 MANIFEST = {
     "text": "Proof: C08_joint_components / C08_joint_score (the JointUtility accessors are the weighted sums, any weights; "
             "NaN-sentinel rule), C08_kernel_linear (K=1 neighbor scores under the joint tables = weighted sum of the "
